@@ -3,9 +3,10 @@ CONSTANT MaxNodes = 5
 CONSTANT MaxLeaves = 3
 CONSTANT MaxList = 2
 CONSTANT MaxSingles = 3
+CONSTANT AccReuse = FALSE
 CONSTANT SymLeaves = 2
 CONSTANT Design = "reference"
-CONSTANT Domains = {"singles", "lists", "labels", "symbols", "structure"}
+CONSTANT Domains = {"keywords", "history", "singles", "lists", "labels", "symbols", "structure"}
 INVARIANT DomainWithinProperty
 INVARIANT RoundTripHolds
 CHECK_DEADLOCK FALSE
